@@ -17,7 +17,7 @@ translation, engine reseeds, foreign RNG use.
 import copy
 import math
 
-from .core import H, rng_for, digest, sha, jdump, HarnessError, raised_in_harness
+from .core import H, rng_for, digest, sha, jdump, HarnessError, raised_in_harness, apply_env, env_debug_logging
 from . import gen_mol
 
 KEKULE_CURATED = [
@@ -140,7 +140,7 @@ def generate(run_seed, prop, tier="quick"):
         ops += [{"op": "embed", "m": m},
                 {"op": "repermute", "m": m, "permute": "shuffle", "relabel": rng.choice(["none", "shuffle"]), "perm_seed": rng.randrange(2 ** 30)},
                 {"op": rng.choice(["embed", "embed_cg"]), "m": m}]
-    return {"family": "rdkit", "prop": prop, "run_seed": run_seed, "sources": sources, "engine": engine,
+    return {"family": "rdkit", "prop": prop, "run_seed": run_seed, "sources": sources, "engine": engine, "debug_logging": env_debug_logging(run_seed),
             "embed_seed": rng.randrange(1, 2 ** 30),
             "permute": rng.choice(["none", "reverse", "shuffle", "shuffle"]),
             "relabel": rng.choice(["none", "none", "shuffle", "offset"]),
@@ -329,6 +329,7 @@ def run_history(scenario):
     violations = []
     stats = {}
     events = []
+    apply_env(sc, stats)
 
     def violate(oracle, detail, seq, signature=None):
         violations.append({"oracle": oracle, "detail": detail, "event": seq, "signature": signature})
